@@ -85,6 +85,65 @@ func lockedOps(fset *token.FileSet, fd *ast.FuncDecl) []string {
 	return out
 }
 
+// lockFlow lists, in source order, what a Servent method does with s.mu — Lock, Unlock,
+// `defer s.mu.Unlock()` (from there on the mutex stays held to the end of the function) — and
+// its BLOCKING operations — a send statement, a select, the call of the injected send
+// function — each with whether s.mu is held there. spans = some blocking operation sits
+// inside a critical section of s.mu.
+func lockFlow(fset *token.FileSet, fd *ast.FuncDecl) (out []string, spans bool) {
+	if fd == nil {
+		return nil, true // nothing established: not the code the model is about
+	}
+	locked, deferred := false, false
+	inComm := map[ast.Node]bool{}
+	note := func(what string) {
+		out = append(out, fmt.Sprintf("%s locked=%v", what, locked))
+		if locked {
+			spans = true
+		}
+	}
+	ast.Inspect(fd.Body, func(n ast.Node) bool {
+		switch x := n.(type) {
+		case *ast.ExprStmt:
+			switch src(fset, x.X) {
+			case "s.mu.Lock()":
+				out = append(out, "s.mu.Lock()")
+				locked = true
+			case "s.mu.Unlock()":
+				out = append(out, "s.mu.Unlock()")
+				if !deferred {
+					locked = false
+				}
+			}
+		case *ast.DeferStmt:
+			if src(fset, x.Call) == "s.mu.Unlock()" {
+				out = append(out, "defer s.mu.Unlock()")
+				deferred = true
+			}
+			return false
+		case *ast.GoStmt:
+			return false
+		case *ast.SelectStmt:
+			for _, c := range x.Body.List {
+				if cc, ok := c.(*ast.CommClause); ok && cc.Comm != nil {
+					inComm[cc.Comm] = true
+				}
+			}
+			note("select")
+		case *ast.SendStmt:
+			if !inComm[x] {
+				note("send " + src(fset, x))
+			}
+		case *ast.CallExpr:
+			if src(fset, x.Fun) == "s.SendFunc" {
+				note("call s.SendFunc")
+			}
+		}
+		return true
+	})
+	return out, spans
+}
+
 func callIdLiteral(fset *token.FileSet, fd *ast.FuncDecl) string {
 	res := ""
 	if fd == nil {
@@ -377,6 +436,8 @@ func genFacts(repo string) (string, error) {
 	fset := token.NewFileSet()
 	var fields, runOps, prOps, selectCases, consol, flow, commitOps, startOps []string
 	runLit, prLit := "", ""
+	var runLock, prLock []string
+	lockSpans := true
 	if f, err := parser.ParseFile(fset, repo+"/core/controlcommands/mesoscommandservent.go", nil, 0); err == nil {
 		ast.Inspect(f, func(n ast.Node) bool {
 			if ts, ok := n.(*ast.TypeSpec); ok && ts.Name.Name == "CallId" {
@@ -405,6 +466,10 @@ func genFacts(repo string) (string, error) {
 		pr := funcDecl(f, "Servent", "ProcessResponse")
 		prOps = lockedOps(fset, pr)
 		prLit = callIdLiteral(fset, pr)
+		var a, b bool
+		runLock, a = lockFlow(fset, run)
+		prLock, b = lockFlow(fset, pr)
+		lockSpans = a || b
 	}
 	if f, err := parser.ParseFile(fset, repo+"/core/controlcommands/commandqueue.go", nil, 0); err == nil {
 		commitOps = commitCalls(fset, funcDecl(f, "CommandQueue", "commit"))
@@ -436,6 +501,11 @@ func genFacts(repo string) (string, error) {
 	b.WriteString("/-- accesses of s.pending and channel sends, in source order, with whether s.mu is held -/\n")
 	fmt.Fprintf(&b, "def runCommandOps : List String := %s\n", leanList(runOps))
 	fmt.Fprintf(&b, "def processResponseOps : List String := %s\n\n", leanList(prOps))
+	b.WriteString("/-- what RunCommand / ProcessResponse do with s.mu (Lock, Unlock, defer Unlock) and their blocking operations (send statement, select, the injected send function) with whether s.mu is held there, in source order -/\n")
+	fmt.Fprintf(&b, "def runCommandLock : List String := %s\n", leanList(runLock))
+	fmt.Fprintf(&b, "def processResponseLock : List String := %s\n", leanList(prLock))
+	b.WriteString("/-- some blocking operation of a Servent method sits inside a critical section of s.mu -/\n")
+	fmt.Fprintf(&b, "def lockSpansBlocking : Bool := %v\n\n", lockSpans)
 	b.WriteString("/-- the communication clauses of RunCommand's select -/\n")
 	fmt.Fprintf(&b, "def runCommandSelect : List String := %s\n\n", leanList(selectCases))
 	b.WriteString("/-- top-level statements of consolidateResponses (multiresponse.go) -/\n")
